@@ -15,6 +15,10 @@ package c10
 //   tampered: every single alteration of an honest claim: an entry dropped, a value changed, an absent key inserted,
 //            two neighbours exchanged, first moved to every other key, boundary proof dropped, each proof node
 //            altered / removed -> if accepted, the altered CLAIM must be true (and "more entries" right).
+//   sweep  : (Part B2, rangeshape_test.go) every absent `first` at every divergence point of the trie claimed EMPTY with
+//            its own GetRangeProof(first, first): accepted iff nothing follows.
+// Accepted false claims / rejected honest claims are keyed exactly by shape (rangeshape_test.go): the known findings
+// keep only the shapes they stand for.
 
 import (
 	"fmt"
@@ -127,6 +131,7 @@ func runRangeCase(r *ev.Run, c *rangeCase, hs *hasher, loc tally) {
 		return
 	}
 	root := h.root()
+	eqHash := equalHashNodes(c.kvs)
 	sorted := append([]kvT(nil), c.kvs...)
 	sort.Slice(sorted, func(i, j int) bool { return sorted[i].K.Cmp(sorted[j].K) < 0 })
 	detail := func(cl *rangeClaim, extra map[string]any) map[string]any {
@@ -160,8 +165,12 @@ func runRangeCase(r *ev.Run, c *rangeCase, hs *hasher, loc tally) {
 			r.Violate(fmt.Sprintf("range-proof-more-entries-flag-wrong %s", c.im.name),
 				detail(cl, map[string]any{"tamper": class, "honest": honest.String(), "got_more": more, "true_more": tmore}))
 		default:
-			r.Violate(fmt.Sprintf("FALSE-range-claim-accepted %s tamper=%s", c.im.name, class),
-				detail(cl, map[string]any{"honest": honest.String(), "keying": keying, "nodes": cl.nodes}))
+			// exact by shape: only the shapes the known trie2 finding stands for keep its key (rangeshape_test.go)
+			key, shape := falseClaimKey(c, cl, class, eqHash)
+			if shape != "" {
+				loc.add("false claim accepted, shape " + shape)
+			}
+			r.Violate(key, detail(cl, map[string]any{"tamper": class, "shape": shape, "honest": honest.String(), "keying": keying, "nodes": cl.nodes}))
 		}
 		// the same altered claim against the prover's own node objects (not re-decoded): only for alterations of the
 		// claim itself, and only where the wire-decoded node set rejected it (what is accepted there is already reported)
@@ -291,7 +300,13 @@ func runRangeCase(r *ev.Run, c *rangeCase, hs *hasher, loc tally) {
 		_, tmore := claimTruth(c.kvs, hc)
 		switch {
 		case err != nil:
-			r.Violate(fmt.Sprintf("VerifyRangeProof-rejects-honest-range %s %s", c.im.name, kind), detail(hc, map[string]any{"err": err.Error(), "panic": pan, "nodes": hc.nodes}))
+			key := fmt.Sprintf("VerifyRangeProof-rejects-honest-range %s %s", c.im.name, kind)
+			if c.im.trie2 && len(c.kvs) > 0 && !eqHash {
+				// the known trie2 finding is the shared Go object for equal-hash nodes (shape S2, rangeshape_test.go) and the
+				// empty trie; a rejection on any other trie is a different defect
+				key += " shape=no-equal-hash-nodes"
+			}
+			r.Violate(key, detail(hc, map[string]any{"err": err.Error(), "panic": pan, "nodes": hc.nodes}))
 			loc.add("range honest " + kind + ": REJECTED")
 			return
 		case more != tmore:
@@ -370,7 +385,7 @@ func runRangeCase(r *ev.Run, c *rangeCase, hs *hasher, loc tally) {
 }
 
 func runRange(r *ev.Run) {
-	var cases []*rangeCase
+	var cases, sweep []*rangeCase
 	for _, im := range impls {
 		if im.name == "trie2-mem" {
 			continue
@@ -391,14 +406,16 @@ func runRange(r *ev.Run) {
 							kvs = append(kvs, kvT{embed(uint64(s), h, pos), fv(valueOf(d))})
 						}
 					}
-					if h == 3 && r.Quick() && (len(kvs) > 2 || emb != "spread") {
-						continue // quick: height 3 with <=2 entries in the spread embedding only
+					if h == 3 && len(kvs) > ev.Pick(r, 2, 4) {
+						continue // height 3: <=2 entries quick, <=4 entries thorough; all height-2 states in both tiers
 					}
-					if h == 3 && len(kvs) > 4 {
-						continue // thorough: height 3 with <=4 entries (every embedding); all height-2 states in both tiers
+					rc := &rangeCase{label: fmt.Sprintf("h=%d/%s", h, emb), desc: fmt.Sprintf("state=%v %s", ds, kvDesc(kvs)),
+						im: im, kvs: kvs, logical: logical}
+					sweep = append(sweep, rc) // Part B2 (cheap: the verifier rebuilds no trie for an empty claim): every embedding in both tiers
+					if h == 3 && r.Quick() && emb != "spread" {
+						continue // Part B, quick: height 3 in the spread embedding only
 					}
-					cases = append(cases, &rangeCase{label: fmt.Sprintf("h=%d/%s", h, emb), desc: fmt.Sprintf("state=%v %s", ds, kvDesc(kvs)),
-						im: im, kvs: kvs, logical: logical})
+					cases = append(cases, rc)
 				}
 			}
 		}
@@ -427,6 +444,7 @@ func runRange(r *ev.Run) {
 	if skipped > 0 {
 		r.Incomplete(fmt.Sprintf("range proofs: %d of %d tries not processed (deadline)", skipped, len(cases)))
 	}
+	runEmptySweep(r, append(sweep, craftedRangeCases(r)...), total)
 	kinds := 0
 	for k, v := range total {
 		if k[0] == '#' {
